@@ -48,7 +48,7 @@ PROPS["C04"] = dict(
                "oracles; all 1- and 2-byte payloads enumerated for both built-in tables; wire-level scan of everything an uploading "
                "client writes on real pair-engine transfers.",
     level_note="Tables are generated in the form servers announce (leader 0xEE present, distinct sources, distinct codes none of which "
-               "is a protected byte). Zero-length reads and source chunks >= the reader's 32 KiB buffer are out of domain.",
+               "is a protected byte). Zero-length reads are out of domain (this code base never issues them).",
     rule="non-trivial = payload contains a protected byte or the leader AND (a cut falls between a leader and its code, or zstd "
          "sits in front of the escaper); distinct by SHA-1 of the case JSON",
     tests=[
